@@ -87,6 +87,27 @@ def bounded_query(facts, goal, N=4):
     return out
 
 
+def search_text(smt2, N=4, timeout_ms=20000):
+    """Same on the SMT-LIB2 text of a VC (assertions = facts and the negated goal)."""
+    from .solve import _model_dict
+
+    asserts = list(z3.parse_smt2_string(smt2))
+    consts, seqs = _collect(asserts)
+    cache = {}
+    s = z3.Solver()
+    s.set("timeout", timeout_ms)
+    for f in asserts:
+        s.add(_expand(f, N, consts, cache))
+    for q in seqs:
+        s.add(z3.Length(q) <= N)
+    r = s.check()
+    if r == z3.sat:
+        return "candidate", _model_dict(s.model())
+    if r == z3.unsat:
+        return "none", None
+    return "unknown", None
+
+
 def search(facts, goal, N=4, timeout_ms=20000):
     """Returns (status, model_dict|None): status in {'candidate', 'none', 'unknown'}."""
     from .solve import _model_dict
